@@ -249,18 +249,14 @@ class FNet(object):
     return n.con is not None and bool(n.sock.out)
 
   def deliver(self, dpid):
-    """the switch receives everything the controller has written so far, and answers"""
+    """the switch receives everything the controller has written so far (not what the controller writes in
+    reaction to what happens then), and answers"""
     n = self.nodes[dpid]
     if n.con is None:
       raise SimError("deliver: not connected")
-    for _ in range(1000):
-      if not n.sock.out:
-        break
-      data, n.sock.out = n.sock.out, b""
+    data, n.sock.out = n.sock.out, b""
+    if data:
       n.worker._push_receive_data(data)
-      self._settle()
-    else:
-      raise SimError("deliver did not finish")
     self._settle()
 
   # ---------------------------------------------------------- environment
